@@ -1,6 +1,7 @@
 import Driver.Util
 import Stgutg.Model.Milenage
 import Stgutg.Spec.Ts35206
+import Stgutg.Spec.MilenageUsim
 import Stgutg.Crypto.Prims
 namespace Driver
 open Stgutg
@@ -85,17 +86,6 @@ def gen : Handler
 def checkStr (o : CheckOut) : String :=
   toString o.ret ++ " " ++ toString o.resLen ++ " " ++ toHex o.res ++ " " ++ toHex o.ck ++ " " ++ toHex o.ik ++ " " ++ toHex o.auts
 
-/-- what TS 33.102 / the property prescribe for a received AUTN: 0 accepted; -2 SQN not fresh, AUTS produced;
-    -1 SQN fresh but MAC-A wrong. RES/CK/IK are f2/f3/f4 in every case. -/
-def specCheck (opc k sqn rand autn : Bytes) : CheckOut :=
-  let res := Spec.Ts35206.f2 E k opc rand
-  let ck := Spec.Ts35206.f3 E k opc rand
-  let ik := Spec.Ts35206.f4 E k opc rand
-  if ¬ Spec.Ts35206.sqnFresh E k opc rand autn sqn then
-    ⟨-2, 8, res, ck, ik, Spec.Ts35206.auts E k opc rand sqn⟩
-  else if Spec.Ts35206.macOk E k opc rand autn then ⟨0, 8, res, ck, ik, zeros 14⟩
-  else ⟨-1, 8, res, ck, ik, zeros 14⟩
-
 /-- `mil_check opc k sqn rand autn` → `ok <ret> <reslen> <res> <ck> <ik> <auts>` (res_len is 0 on entry) -/
 def check : Handler
   | [opc, k, sqn, rand, autn] =>
@@ -103,7 +93,7 @@ def check : Handler
     | some opc, some k, some sqn, some rand, some autn =>
       let m := resStr checkStr (Milenage_check P opc k sqn rand autn 0)
       let s := if dom [(opc, 16), (k, 16), (rand, 16), (sqn, 6), (autn, 16)] then
-          "ok " ++ checkStr (specCheck opc k sqn rand autn)
+          "ok " ++ checkStr (Spec.Ts35206.checkSpec E opc k sqn rand autn)
         else "undef"
       (m, s)
     | _, _, _, _, _ => badOp
@@ -116,8 +106,8 @@ def autsH : Handler
     | some opc, some k, some rand, some auts =>
       let m := resStr (fun (r, s) => toString r ++ " " ++ toHex s) (Milenage_auts P opc k rand auts)
       let s := if dom [(opc, 16), (k, 16), (rand, 16), (auts, 14)] then
-          let sq := Spec.Ts35206.autsSqn E k opc rand auts
-          if Spec.Ts35206.autsOk E k opc rand auts then "ok 0 " ++ toHex sq else "ok -1 " ++ toHex sq
+          let (r, sq) := Spec.Ts35206.autsSpec E opc k rand auts
+          "ok " ++ toString r ++ " " ++ toHex sq
         else "undef"
       (m, s)
     | _, _, _, _ => badOp
